@@ -6587,6 +6587,10 @@ fn regular_serialize_vec<T: Serialize>(
     let l = items.len();
     serializer.write_usize(l)?;
     if std::mem::size_of::<T>() == 0 {
+        // Zero-sized in memory does not mean zero-sized on disk (Canary1 writes 4 bytes).
+        for item in items {
+            item.serialize(serializer)?;
+        }
         return Ok(());
     }
 
